@@ -83,3 +83,72 @@ def re_sub(pattern: str, s: str) -> str:
 def textwrap_dedent(text: str) -> str:
     import textwrap
     return textwrap.dedent(text)
+
+
+# ---------------------------------------------------------------- paths and the file system (T-OS), uninterpreted
+@spec(axioms_only=True)
+def path_join(a: str, b: str) -> str:
+    import os
+    return os.path.join(a, b)
+
+
+@spec(axioms_only=True)
+def path_relpath(p: str, start: str) -> str:
+    import os
+    return os.path.relpath(p, start)
+
+
+@spec(axioms_only=True)
+def path_basename(p: str) -> str:
+    import os
+    return os.path.basename(p)
+
+
+@spec(axioms_only=True)
+def path_dirname(p: str) -> str:
+    import os
+    return os.path.dirname(p)
+
+
+@spec(axioms_only=True)
+def path_abspath(p: str) -> str:
+    import os
+    return os.path.abspath(p)
+
+
+@spec(axioms_only=True)
+def path_normpath(p: str) -> str:
+    import os
+    return os.path.normpath(p)
+
+
+@spec(axioms_only=True)
+def fs_isdir(p: str) -> bool:
+    """the path is a directory in the file system the run started with"""
+    import os
+    return os.path.isdir(p)
+
+
+@spec(axioms_only=True)
+def fs_isfile(p: str) -> bool:
+    import os
+    return os.path.isfile(p)
+
+
+@spec(axioms_only=True)
+def fs_exists(p: str) -> bool:
+    import os
+    return os.path.exists(p)
+
+
+@spec(axioms_only=True)
+def excluded(patterns: "list[str]", p: str) -> bool:
+    """pathspec (gitwildmatch) decision for an absolute path (T-LIB)"""
+    import pathspec
+    return pathspec.PathSpec.from_lines(pathspec.patterns.GitWildMatchPattern, patterns).match_file(p)
+
+
+@spec
+def stem(name: str) -> str:
+    """a file name without its last extension"""
+    return ".".join(name.split(".")[:-1])
